@@ -4,6 +4,7 @@
 pub mod b64;
 pub mod backend;
 pub mod monitors;
+pub mod noise;
 pub mod prims;
 pub mod refimpl;
 pub mod typed;
